@@ -24,6 +24,8 @@ def record(tw, rng, n_chains, stats):
             mix = _mix(c1, c2)
         else:
             ratio = gen.logu(rng, 1.0, 1000.0)
+            if rng.random() < 0.06:
+                ratio = rng.choice([1.0, 1.0, 1.0 + gen.logu(rng, 1e-15, 1e-2)])      # equal or nearly equal molar masses: still a conversion
             m1 = gen.logu(rng, 1.0, 1000.0 / ratio) if rng.random() < 0.5 else gen.logu(rng, ratio, 1000.0)
             m2 = m1 * ratio if m1 * ratio <= 1000.0 else m1 / ratio
             if rng.random() < 0.2:
